@@ -72,6 +72,9 @@ func c09IsBoolType(t types.Type) bool {
 // PFactCtx decides which callees condFacts may look into.
 type PFactCtx struct {
 	InPkg func(fn *ssa.Function) bool
+	// CellVal (set by PathFlow while an edge is examined): the value a local
+	// variable cell (possibly captured) was last assigned on the current path.
+	CellVal func(cell *ssa.Alloc) ssa.Value
 }
 
 // condFacts returns facts that hold whenever v == truth.
@@ -92,6 +95,13 @@ func (fc *PFactCtx) condFactsD(v ssa.Value, truth bool, depth int) []PFact {
 			// load of a local bool variable: the value that reaches the load
 			if def := c09SlotDef(x); def != nil {
 				return append(fc.condFactsD(def, truth, depth+1), PFact{V: v, Truth: truth})
+			}
+			if fc.CellVal != nil {
+				if cell := cellOf(x.X); cell != nil {
+					if cv := fc.CellVal(cell); cv != nil && cv != v {
+						return append(fc.condFactsD(cv, truth, depth+1), PFact{V: v, Truth: truth})
+					}
+				}
 			}
 		}
 	case *ssa.BinOp:
@@ -136,57 +146,65 @@ func (fc *PFactCtx) condFactsD(v ssa.Value, truth bool, depth int) []PFact {
 		return c09IntersectFacts(sets)
 	case *ssa.Call:
 		out := []PFact{{V: v, Truth: truth}}
-		if x.Call.IsInvoke() {
+		if x.Call.IsInvoke() || x.Call.Signature().Results().Len() != 1 {
 			return out
 		}
-		cal := staticCallee(x)
-		if cal == nil || len(cal.Blocks) == 0 || fc.InPkg == nil || !fc.InPkg(cal) {
-			return out
+		return append(out, fc.resultFacts(x, 0, truth, depth)...)
+	case *ssa.Extract:
+		if call, ok := x.Tuple.(*ssa.Call); ok && c09IsBoolType(x.Type()) && !call.Call.IsInvoke() {
+			return append([]PFact{{V: v, Truth: truth}}, fc.resultFacts(call, x.Index, truth, depth)...)
 		}
-		if cal.Signature.Results().Len() != 1 {
-			return out
-		}
-		var sets [][]PFact
-		for _, b := range cal.Blocks {
-			if len(b.Instrs) == 0 {
-				continue
-			}
-			ret, ok := b.Instrs[len(b.Instrs)-1].(*ssa.Return)
-			if !ok || len(ret.Results) != 1 {
-				continue
-			}
-			if b != cal.Blocks[0] && len(b.Preds) == 0 {
-				continue // recover block
-			}
-			results := unspill(ret.Results[0])
-			if u, ok := ret.Results[0].(*ssa.UnOp); ok {
-				if def := c09SlotDef(u); def != nil {
-					results = []ssa.Value{def}
-				}
-			}
-			for _, rv := range results {
-				if k, ok := c09BoolConst(rv); ok && k != truth {
-					continue
-				}
-				fs := fc.condFactsD(rv, truth, depth+1)
-				fs = append(fs, fc.blockFacts(b, depth+1)...)
-				if rv != ret.Results[0] {
-					// spilled result: facts at the store of this value
-					for _, r := range refs(ret.Results[0].(*ssa.UnOp).X) {
-						if st, ok := r.(*ssa.Store); ok && st.Val == rv {
-							fs = append(fs, fc.blockFacts(st.Block(), depth+1)...)
-						}
-					}
-				}
-				sets = append(sets, fs)
-			}
-		}
-		return append(out, c09IntersectFacts(sets)...)
 	}
 	if c09IsBoolType(v.Type()) {
 		return []PFact{{V: v, Truth: truth}}
 	}
 	return nil
+}
+
+// resultFacts: facts that hold when result idx of the same-package call has the given truth value.
+func (fc *PFactCtx) resultFacts(x *ssa.Call, idx int, truth bool, depth int) []PFact {
+	cal := staticCallee(x)
+	if cal == nil || len(cal.Blocks) == 0 || fc.InPkg == nil || !fc.InPkg(cal) {
+		return nil
+	}
+	var sets [][]PFact
+	for _, b := range cal.Blocks {
+		if len(b.Instrs) == 0 {
+			continue
+		}
+		ret, ok := b.Instrs[len(b.Instrs)-1].(*ssa.Return)
+		if !ok || idx >= len(ret.Results) {
+			continue
+		}
+		if b != cal.Blocks[0] && len(b.Preds) == 0 {
+			continue // recover block
+		}
+		results := unspill(ret.Results[idx])
+		if u, ok := ret.Results[idx].(*ssa.UnOp); ok {
+			if def := c09SlotDef(u); def != nil {
+				results = []ssa.Value{def}
+			}
+		}
+		for _, rv := range results {
+			if k, ok := c09BoolConst(rv); ok && k != truth {
+				continue
+			}
+			fs := fc.condFactsD(rv, truth, depth+1)
+			fs = append(fs, fc.blockFacts(b, depth+1)...)
+			if rv != ret.Results[idx] {
+				// spilled result: facts at the store of this value
+				if u, ok := ret.Results[idx].(*ssa.UnOp); ok {
+					for _, r := range refs(u.X) {
+						if st, ok := r.(*ssa.Store); ok && st.Val == rv {
+							fs = append(fs, fc.blockFacts(st.Block(), depth+1)...)
+						}
+					}
+				}
+			}
+			sets = append(sets, fs)
+		}
+	}
+	return c09IntersectFacts(sets)
 }
 
 // c09SlotDef: ld loads a local variable slot (an Alloc that is not captured);
@@ -311,7 +329,13 @@ func (rc *PRootCtx) callSites(fn *ssa.Function) [][]ssa.Value {
 		for _, f := range rc.Fns {
 			allInstrs(f, func(in ssa.Instruction) {
 				ci, ok := in.(ssa.CallInstruction)
-				if !ok || ci.Common().IsInvoke() {
+				if !ok {
+					return
+				}
+				if ci.Common().IsInvoke() {
+					if m := c09SingleImpl(ci); m != nil {
+						rc.sites[m] = append(rc.sites[m], append([]ssa.Value{ci.Common().Value}, ci.Common().Args...))
+					}
 					return
 				}
 				if _, isB := ci.Common().Value.(*ssa.Builtin); isB {
@@ -332,6 +356,9 @@ func (rc *PRootCtx) callSites(fn *ssa.Function) [][]ssa.Value {
 			var tgts []tgt
 			ok := true
 			for _, r := range rc.Roots(ci.Common().Value) {
+				if tv := c09FuncFieldTarget(r, rc.Fns); tv != nil {
+					r = tv
+				}
 				var f *ssa.Function
 				switch x := r.(type) {
 				case *ssa.Function:
@@ -632,12 +659,10 @@ func c09ReturnValues(fn *ssa.Function, idx int) []ssa.Value {
 // PState is an abstract state: two words of rule-defined bits.
 type PState struct{ A, B uint64 }
 
-// pfExit is a state at a return of a followed function, with the boolean
-// constant returned on that path when it is known (1 true, -1 false, 0 unknown).
-type pfExit struct {
-	g     PState
-	rv    int8
-	atoms [pfAtoms]pfAtom
+// pfRet: a constant (bool as 0/1, or integer) a followed function returned.
+type pfRet struct {
+	known bool
+	val   int64
 }
 
 // pfAtom: the boolean result of call v was observed to be t on this path.
@@ -646,14 +671,46 @@ type pfAtom struct {
 	t bool
 }
 
-const pfAtoms = 4
+// pfCell: local variable cell (possibly captured by closures) last assigned val on this path.
+type pfCell struct {
+	cell *ssa.Alloc
+	val  ssa.Value
+}
+
+// pfIV: the constant an integer phi (a counted loop's index) holds on this path.
+type pfIV struct {
+	phi *ssa.Phi
+	val int64
+}
+
+const (
+	pfAtoms = 4
+	pfCells = 3
+	pfIVs   = 2
+)
+
+// pfMem is what the engine itself remembers along a path, so that flags,
+// small enums and tuples computed by a followed helper or closure stay
+// correlated with the branches that test them afterwards.
+type pfMem struct {
+	rc    *ssa.Call       // most recent followed call with constant result(s) on this path
+	rk    [2]pfRet        // its constant results (index 0 and 1)
+	atoms [pfAtoms]pfAtom // recently observed boolean call results
+	cells [pfCells]pfCell // recently assigned scalar local variables
+	ivs   [pfIVs]pfIV     // indices of counted loops over literal tables (such loops are unrolled)
+}
+
+// pfExit is a state at a return of a followed function.
+type pfExit struct {
+	g  PState
+	rk [2]pfRet
+	m  pfMem
+}
 
 type pfState struct {
-	rc    *ssa.Call // most recent followed call whose boolean result is known on this path
-	rv    int8
-	atoms [pfAtoms]pfAtom // recently observed boolean call results (for pruning contradictory paths)
-	g     PState          // rule-defined facts
-	d     uint32          // deferred calls registered so far in the current function
+	g PState // rule-defined facts
+	d uint32 // deferred calls registered so far in the current function
+	m pfMem
 }
 
 type pfFrame struct {
@@ -682,12 +739,19 @@ type PathFlow struct {
 	// correlated with what the helper did).
 	Facts *PFactCtx
 
+	// Funcs (optional): the functions in which stores to func-typed fields are looked up.
+	Funcs []*ssa.Function
+	// RootsOf (optional): provenance of a value, used to tell harmless unresolved
+	// calls (library results, root parameters) from calls that should have been followed.
+	RootsOf func(pf *PathFlow, v ssa.Value) []ssa.Value
+
 	MaxStates int
 	Problems  []string // reasons the exploration is incomplete (=> UNDECIDED)
 	Visited   map[ssa.Instruction]bool
 
 	frames []pfFrame
 	steps  int
+	cur    *pfMem // path memory of the state being executed
 }
 
 func (pf *PathFlow) problem(format string, args ...any) {
@@ -759,6 +823,11 @@ func (pf *PathFlow) resolveAt(v ssa.Value, fi int, depth int) ssa.Value {
 	case *ssa.ChangeType:
 		return pf.resolveAt(x.X, fi, depth+1)
 	case *ssa.UnOp:
+		if fi == len(pf.frames)-1 {
+			if el := pf.tableElem(x); el != nil {
+				return pf.resolveAt(el, fi, depth+1)
+			}
+		}
 		// load of a local cell (possibly captured by the closure being run) with exactly one store
 		if x.Op == token.MUL {
 			addr, afi := x.X, fi
@@ -818,11 +887,17 @@ func (pf *PathFlow) bindingOf(fv *ssa.FreeVar, fi int) (ssa.Value, int) {
 	return nil, -1
 }
 
-// Callee resolves the function a call instruction runs: the static callee or
-// a function value whose target is known in the calling context.
+// Callee resolves the function a call instruction runs: the static callee, a
+// function value whose target is known in the calling context (closure
+// parameter, method value), a func-typed struct field that is only ever
+// assigned one function, or an interface method with a single implementation
+// in the package.
 func (pf *PathFlow) Callee(ci ssa.CallInstruction) (*ssa.Function, *ssa.MakeClosure, []ssa.Value) {
 	cc := ci.Common()
 	if cc.IsInvoke() {
+		if m := c09SingleImpl(ci); m != nil {
+			return m, nil, append([]ssa.Value{cc.Value}, cc.Args...)
+		}
 		return nil, nil, nil
 	}
 	var f *ssa.Function
@@ -842,14 +917,161 @@ func (pf *PathFlow) Callee(ci ssa.CallInstruction) (*ssa.Function, *ssa.MakeClos
 	if _, isBuiltin := cc.Value.(*ssa.Builtin); isBuiltin {
 		return nil, nil, nil
 	}
-	if !pick(cc.Value) && !pick(pf.Resolve(cc.Value)) {
-		return nil, nil, nil
+	if !pick(cc.Value) {
+		rv := pf.Resolve(cc.Value)
+		if !pick(rv) {
+			tv := c09FuncFieldTarget(rv, pf.Funcs)
+			if tv == nil {
+				tv = rv
+			}
+			if w := c09OnceFuncArg(tv); w != nil {
+				tv = pf.Resolve(w)
+			}
+			if !pick(tv) {
+				return nil, nil, nil
+			}
+		}
 	}
 	if cal, args := c09BoundTarget(f, mc, cc.Args); mc != nil && cal != f {
 		return cal, nil, args
 	}
 	args := cc.Args
 	return f, mc, args
+}
+
+// c09FuncFieldTarget: v is a load of a func-typed struct field; if every store
+// into that field (in funcs) stores the same function value, returns it.
+func c09FuncFieldTarget(v ssa.Value, funcs []*ssa.Function) ssa.Value {
+	u, ok := v.(*ssa.UnOp)
+	if !ok || u.Op != token.MUL {
+		return nil
+	}
+	fa, ok := u.X.(*ssa.FieldAddr)
+	if !ok {
+		return nil
+	}
+	if _, isFunc := u.Type().Underlying().(*types.Signature); !isFunc {
+		return nil
+	}
+	id := fieldIDOfAddr(fa)
+	var tgt ssa.Value
+	var tf *ssa.Function
+	n := 0
+	for _, fn := range funcs {
+		bad := false
+		allInstrs(fn, func(in ssa.Instruction) {
+			st, ok := in.(*ssa.Store)
+			if !ok {
+				return
+			}
+			sfa, ok := st.Addr.(*ssa.FieldAddr)
+			if !ok || fieldIDOfAddr(sfa) != id {
+				return
+			}
+			n++
+			var g *ssa.Function
+			sv := st.Val
+			if w := c09OnceFuncArg(sv); w != nil {
+				sv = w
+			}
+			switch x := sv.(type) {
+			case *ssa.Function:
+				g = origin(x)
+			case *ssa.MakeClosure:
+				h, _ := x.Fn.(*ssa.Function)
+				g = origin(h)
+				if h != nil && h.Synthetic != "" {
+					if obj, ok := h.Object().(*types.Func); ok && obj != nil {
+						g = origin(h.Prog.FuncValue(obj)) // bound method value: identify by the method
+					}
+				}
+			}
+			if g == nil || (tf != nil && g != tf) {
+				bad = true
+				return
+			}
+			tf, tgt = g, sv
+		})
+		if bad {
+			return nil
+		}
+	}
+	if n == 0 {
+		return nil
+	}
+	return tgt
+}
+
+// c09OnceFuncArg: v is sync.OnceFunc(f) (or OnceValue/OnceValues): calling it runs f (at most once).
+func c09OnceFuncArg(v ssa.Value) ssa.Value {
+	call, ok := v.(*ssa.Call)
+	if !ok || call.Call.IsInvoke() || len(call.Call.Args) != 1 {
+		return nil
+	}
+	obj := calleeObj(call)
+	if obj == nil || obj.Pkg() == nil || obj.Pkg().Path() != "sync" {
+		return nil
+	}
+	switch obj.Name() {
+	case "OnceFunc", "OnceValue", "OnceValues":
+		return call.Call.Args[0]
+	}
+	return nil
+}
+
+// c09SingleImpl: ci invokes a method of an interface declared in the package
+// of the calling function; if exactly one named type of that package
+// implements the interface, returns its method.
+func c09SingleImpl(ci ssa.CallInstruction) *ssa.Function {
+	cc := ci.Common()
+	fn := ci.Parent()
+	if cc.Method == nil || fn == nil || fn.Pkg == nil || cc.Method.Pkg() == nil || cc.Method.Pkg() != fn.Pkg.Pkg {
+		return nil
+	}
+	iface, ok := cc.Value.Type().Underlying().(*types.Interface)
+	if !ok {
+		return nil
+	}
+	var found *ssa.Function
+	n := 0
+	for _, mem := range fn.Pkg.Members {
+		tm, ok := mem.(*ssa.Type)
+		if !ok {
+			continue
+		}
+		named, ok := tm.Type().(*types.Named)
+		if !ok {
+			continue
+		}
+		if _, isI := named.Underlying().(*types.Interface); isI {
+			continue
+		}
+		for _, t := range []types.Type{named, types.NewPointer(named)} {
+			if !types.Implements(t, iface) {
+				continue
+			}
+			sel := fn.Prog.MethodSets.MethodSet(t).Lookup(cc.Method.Pkg(), cc.Method.Name())
+			if sel == nil {
+				continue
+			}
+			if m := fn.Prog.MethodValue(sel); m != nil {
+				if obj, ok := m.Object().(*types.Func); ok && obj != nil {
+					if real := fn.Prog.FuncValue(obj); real != nil {
+						m = real
+					}
+				}
+				if found != origin(m) {
+					n++
+					found = origin(m)
+				}
+			}
+			break
+		}
+	}
+	if n == 1 {
+		return found
+	}
+	return nil
 }
 
 // Run explores root from the given entry states.
@@ -867,6 +1089,40 @@ func (pf *PathFlow) Run(root *ssa.Function, entry []PState) {
 	}
 	pf.runFunc(root, es, true)
 	pf.frames = nil
+}
+
+// RunGo explores, with sub's callbacks, the function started by the go
+// statement ci in the calling context pf is currently in (so that function
+// values and parameters handed to the goroutine are known). False if the
+// started function cannot be resolved/followed.
+func (pf *PathFlow) RunGo(ci ssa.CallInstruction, sub *PathFlow, entry []PState) bool {
+	cal, mc, args := pf.Callee(ci)
+	if cal == nil || len(cal.Blocks) == 0 || pf.Follow == nil || !pf.Follow(cal) || pf.onStack(cal) {
+		return false
+	}
+	if sub.MaxStates == 0 {
+		sub.MaxStates = 2048
+	}
+	if sub.Visited == nil {
+		sub.Visited = map[ssa.Instruction]bool{}
+	}
+	sub.frames = append(append([]pfFrame{}, pf.frames...), pfFrame{fn: cal, args: args, mc: mc})
+	var es []pfExit
+	for _, g := range entry {
+		es = append(es, pfExit{g: g})
+	}
+	sub.runFunc(cal, es, true)
+	sub.frames = nil
+	return true
+}
+
+// ContextKey names the chain of functions pf is currently in.
+func (pf *PathFlow) ContextKey() string {
+	key := ""
+	for _, fr := range pf.frames {
+		key += fr.fn.Name() + ">"
+	}
+	return key
 }
 
 // runFunc explores fn from the entry states and returns the states at its returns.
@@ -906,7 +1162,9 @@ func (pf *PathFlow) runFunc(fn *ssa.Function, entry []pfExit, isRoot bool) []pfE
 		pending[bi] = append(pending[bi], s)
 	}
 	for _, e := range entry {
-		push(0, pfState{g: e.g, atoms: e.atoms})
+		m := e.m
+		m.rc, m.rk = nil, [2]pfRet{}
+		push(0, pfState{g: e.g, m: m})
 	}
 	exitSet := map[pfExit]bool{}
 	var exits []pfExit
@@ -938,37 +1196,40 @@ func (pf *PathFlow) runFunc(fn *ssa.Function, entry []pfExit, isRoot bool) []pfE
 			case *ssa.Defer:
 				for _, c := range cur {
 					for _, g := range pf.Instr(pf, in, false, c.g) {
-						next = append(next, pfState{g: g, d: c.d | 1<<uint(deferIdx[x]), rc: c.rc, rv: c.rv, atoms: c.atoms})
+						next = append(next, pfState{g: g, d: c.d | 1<<uint(deferIdx[x]), m: c.m})
 					}
 				}
 			case *ssa.RunDefers:
 				for _, c := range cur {
-					gs := pf.Instr(pf, in, false, c.g)
+					es := []pfExit{}
+					for _, g := range pf.Instr(pf, in, false, c.g) {
+						es = append(es, pfExit{g: g, m: c.m})
+					}
 					for i := len(defers) - 1; i >= 0; i-- {
 						if c.d&(1<<uint(i)) == 0 {
 							continue
 						}
-						var ng []PState
-						for _, g := range gs {
-							for _, e := range pf.execCall(defers[i], true, g, c.atoms) {
-								ng = append(ng, e.g)
-							}
+						var ne []pfExit
+						for _, e := range es {
+							ne = append(ne, pf.execCall(defers[i], true, e.g, e.m)...)
 						}
-						gs = c09DedupPS(ng)
+						es = c09DedupExits(ne)
 					}
-					for _, g := range gs {
-						next = append(next, pfState{g: g, d: c.d, rc: c.rc, rv: c.rv, atoms: c.atoms})
+					for _, e := range es {
+						next = append(next, pfState{g: e.g, d: c.d, m: e.m})
 					}
 				}
 			case *ssa.Call:
 				for _, c := range cur {
-					for _, e := range pf.execCall(x, false, c.g, c.atoms) {
-						ns := pfState{g: e.g, d: c.d, rc: c.rc, rv: c.rv, atoms: e.atoms}
-						ns.dropAtom(x)
-						if e.rv != 0 {
-							ns.rc, ns.rv = x, e.rv
-						} else if c.rc == x {
-							ns.rc, ns.rv = nil, 0
+					cm := c.m
+					pf.cur = &cm
+					for _, e := range pf.execCall(x, false, c.g, c.m) {
+						ns := pfState{g: e.g, d: c.d, m: e.m}
+						ns.m.dropAtom(x)
+						if e.rk[0].known || e.rk[1].known {
+							ns.m.rc, ns.m.rk = x, e.rk
+						} else if ns.m.rc == x {
+							ns.m.rc, ns.m.rk = nil, [2]pfRet{}
 						}
 						next = append(next, ns)
 					}
@@ -979,7 +1240,10 @@ func (pf *PathFlow) runFunc(fn *ssa.Function, entry []pfExit, isRoot bool) []pfE
 						if isRoot && pf.Return != nil {
 							pf.Return(pf, x, g)
 						}
-						e := pfExit{g: g, rv: c09RetConst(x), atoms: c.atoms}
+						e := pfExit{g: g, m: c.m}
+						for i := 0; i < 2 && i < len(x.Results); i++ {
+							e.rk[i] = c09RetConst(x, i)
+						}
 						if !exitSet[e] {
 							exitSet[e] = true
 							exits = append(exits, e)
@@ -991,12 +1255,16 @@ func (pf *PathFlow) runFunc(fn *ssa.Function, entry []pfExit, isRoot bool) []pfE
 				ended = true
 			default:
 				for _, c := range cur {
-					atoms := c.atoms
+					m := c.m
 					if sel, ok := in.(*ssa.Select); ok && sel.Blocking {
-						atoms = [pfAtoms]pfAtom{} // a wait point: what was observed before is stale
+						m.atoms = [pfAtoms]pfAtom{} // a wait point: what was observed before is stale
 					}
+					if st, ok := in.(*ssa.Store); ok {
+						m.assign(st)
+					}
+					pf.cur = &m
 					for _, g := range pf.Instr(pf, in, false, c.g) {
-						next = append(next, pfState{g: g, d: c.d, rc: c.rc, rv: c.rv, atoms: atoms})
+						next = append(next, pfState{g: g, d: c.d, m: m})
 					}
 				}
 			}
@@ -1014,19 +1282,22 @@ func (pf *PathFlow) runFunc(fn *ssa.Function, entry []pfExit, isRoot bool) []pfE
 		}
 		for _, succ := range b.Succs {
 			for _, c := range cur {
-				if c.rc != nil && !c09EdgeAgrees(b, succ, c.rc, c.rv) {
-					continue // the helper returned the other constant on this path
+				c := c
+				if known, val := c.m.evalBranch(b, pf.Resolve); known && (b.Succs[0] == succ) != val && b.Succs[0] != b.Succs[1] {
+					continue // the condition has the other constant value on this path
 				}
 				if pf.Facts != nil {
+					pf.Facts.CellVal = c.m.cellVal
 					ok := true
 					for _, f := range pf.Facts.edgeFacts(b, succ, 0) {
 						if call, isCall := f.V.(*ssa.Call); isCall && !f.IsCmp {
-							if !c.addAtom(call, f.Truth) {
+							if !c.m.addAtom(call, f.Truth) {
 								ok = false
 							}
 						}
 					}
 					if !ok {
+						pf.Facts.CellVal = nil
 						continue // contradicts a call result observed earlier on this path
 					}
 				}
@@ -1034,8 +1305,13 @@ func (pf *PathFlow) runFunc(fn *ssa.Function, entry []pfExit, isRoot bool) []pfE
 				if pf.Edge != nil {
 					gs = pf.Edge(pf, b, succ, c.g)
 				}
+				if pf.Facts != nil {
+					pf.Facts.CellVal = nil
+				}
+				nm := c.m
+				nm.enterBlock(b, succ, pf.Resolve)
 				for _, g := range gs {
-					push(succ.Index, pfState{g: g, d: c.d, rc: c.rc, rv: c.rv, atoms: c.atoms})
+					push(succ.Index, pfState{g: g, d: c.d, m: nm})
 				}
 			}
 		}
@@ -1047,14 +1323,17 @@ func (pf *PathFlow) runFunc(fn *ssa.Function, entry []pfExit, isRoot bool) []pfE
 		if exits[i].g.B != exits[j].g.B {
 			return exits[i].g.B < exits[j].g.B
 		}
-		return exits[i].rv < exits[j].rv
+		if exits[i].rk[0] != exits[j].rk[0] {
+			return exits[i].rk[0].val < exits[j].rk[0].val
+		}
+		return exits[i].rk[1].val < exits[j].rk[1].val
 	})
 	return exits
 }
 
-func c09DedupPS(in []PState) []PState {
-	seen := map[PState]bool{}
-	var out []PState
+func c09DedupExits(in []pfExit) []pfExit {
+	seen := map[pfExit]bool{}
+	var out []pfExit
 	for _, v := range in {
 		if !seen[v] {
 			seen[v] = true
@@ -1077,26 +1356,61 @@ func c09DedupStates(in []pfState) []pfState {
 }
 
 // execCall executes a call (or a deferred call being replayed): the rule sees
-// the call instruction first, then the callee body is followed if wanted.
-func (pf *PathFlow) execCall(ci ssa.CallInstruction, replay bool, g PState, atoms [pfAtoms]pfAtom) []pfExit {
+// the call instruction first, then the callee body is followed if wanted. A
+// call of a function outside the followed set that is handed closures of the
+// package (sync.Once.Do, slices.*Func, ...) may run them: both outcomes are
+// explored.
+func (pf *PathFlow) execCall(ci ssa.CallInstruction, replay bool, g PState, m pfMem) []pfExit {
 	var gs []pfExit
 	for _, ng := range pf.Instr(pf, ci, replay, g) {
-		gs = append(gs, pfExit{g: ng, atoms: atoms})
+		gs = append(gs, pfExit{g: ng, m: m})
 	}
-	plain := func() []pfExit { return gs }
 	cal, mc, args := pf.Callee(ci)
 	if cal == nil || len(cal.Blocks) == 0 || pf.Follow == nil || !pf.Follow(cal) {
-		return plain()
-	}
-	for _, fr := range pf.frames {
-		if fr.fn == cal {
-			pf.problem("recursive call of %s not followed", cal.Name())
-			return plain()
+		if cal == nil {
+			pf.unresolvedCall(ci)
 		}
+		// closures handed to an external function
+		out := gs
+		for _, a := range ci.Common().Args {
+			if _, isFunc := a.Type().Underlying().(*types.Signature); !isFunc || pf.Follow == nil {
+				continue
+			}
+			var f *ssa.Function
+			var amc *ssa.MakeClosure
+			switch x := pf.Resolve(a).(type) {
+			case *ssa.Function:
+				f = origin(x)
+			case *ssa.MakeClosure:
+				h, _ := x.Fn.(*ssa.Function)
+				f, amc = origin(h), x
+			}
+			var fargs []ssa.Value
+			if f != nil && amc != nil {
+				if bt, bargs := c09BoundTarget(f, amc, nil); bt != f {
+					f, amc, fargs = bt, nil, bargs
+				}
+			}
+			if f == nil || len(f.Blocks) == 0 || !pf.Follow(f) || pf.onStack(f) {
+				continue
+			}
+			pf.frames = append(pf.frames, pfFrame{fn: f, args: fargs, mc: amc})
+			ran := pf.runFunc(f, out, false)
+			pf.frames = pf.frames[:len(pf.frames)-1]
+			for i := range ran {
+				ran[i].rk = [2]pfRet{}
+			}
+			out = c09DedupExits(append(append([]pfExit{}, out...), ran...))
+		}
+		return out
+	}
+	if pf.onStack(cal) {
+		pf.problem("recursive call of %s not followed", cal.Name())
+		return gs
 	}
 	if len(pf.frames) > 12 {
 		pf.problem("call depth exceeded at %s", cal.Name())
-		return plain()
+		return gs
 	}
 	pf.frames = append(pf.frames, pfFrame{fn: cal, args: args, mc: mc})
 	out := pf.runFunc(cal, gs, false)
@@ -1104,55 +1418,386 @@ func (pf *PathFlow) execCall(ci ssa.CallInstruction, replay bool, g PState, atom
 	return out
 }
 
-func (s *pfState) dropAtom(call *ssa.Call) {
-	for i := range s.atoms {
-		if s.atoms[i].v == call {
-			copy(s.atoms[i:], s.atoms[i+1:])
-			s.atoms[pfAtoms-1] = pfAtom{}
+func (pf *PathFlow) onStack(f *ssa.Function) bool {
+	for _, fr := range pf.frames {
+		if fr.fn == f {
+			return true
+		}
+	}
+	return false
+}
+
+// unresolvedCall: a call through a function value that cannot be followed. It
+// is harmless when the value comes from outside the followed code (a result
+// of a library call such as a context.CancelFunc, a parameter of the root);
+// otherwise the exploration is incomplete.
+func (pf *PathFlow) unresolvedCall(ci ssa.CallInstruction) {
+	cc := ci.Common()
+	if cc.IsInvoke() {
+		if cc.Method != nil && ci.Parent() != nil && ci.Parent().Pkg != nil && cc.Method.Pkg() == ci.Parent().Pkg.Pkg && pf.Follow != nil {
+			pf.problem("call of interface method %s (several or no implementations in the package) not followed", cc.Method.Name())
+		}
+		return
+	}
+	if _, isB := cc.Value.(*ssa.Builtin); isB || pf.RootsOf == nil {
+		return
+	}
+	for _, r := range pf.RootsOf(pf, cc.Value) {
+		switch x := r.(type) {
+		case *ssa.Extract, *ssa.Call, *ssa.Parameter, *ssa.Const:
+			_ = x
+		default:
+			pf.problem("call through a function value in %s whose target is not known (%s) not followed", ci.Parent().Name(), r.Name())
+			return
+		}
+	}
+}
+
+func (m *pfMem) dropAtom(call *ssa.Call) {
+	for i := range m.atoms {
+		if m.atoms[i].v == call {
+			copy(m.atoms[i:], m.atoms[i+1:])
+			m.atoms[pfAtoms-1] = pfAtom{}
 			return
 		}
 	}
 }
 
 // addAtom records call==t; false if the opposite is already recorded.
-func (s *pfState) addAtom(call *ssa.Call, t bool) bool {
-	for i := range s.atoms {
-		if s.atoms[i].v == call {
-			return s.atoms[i].t == t
+func (m *pfMem) addAtom(call *ssa.Call, t bool) bool {
+	for i := range m.atoms {
+		if m.atoms[i].v == call {
+			return m.atoms[i].t == t
 		}
 	}
-	for i := range s.atoms {
-		if s.atoms[i].v == nil {
-			s.atoms[i] = pfAtom{call, t}
+	for i := range m.atoms {
+		if m.atoms[i].v == nil {
+			m.atoms[i] = pfAtom{call, t}
 			return true
 		}
 	}
-	copy(s.atoms[0:], s.atoms[1:])
-	s.atoms[pfAtoms-1] = pfAtom{call, t}
+	copy(m.atoms[0:], m.atoms[1:])
+	m.atoms[pfAtoms-1] = pfAtom{call, t}
 	return true
 }
 
-// c09RetConst: the boolean constant a Return returns on the path through its
-// block (a literal, or a named/spilled result stored as a constant in the same block).
-func c09RetConst(ret *ssa.Return) int8 {
-	if len(ret.Results) != 1 || !c09IsBoolType(ret.Results[0].Type()) {
-		return 0
+// assign: a store into a scalar local variable (directly or through the free
+// variable of a closure that captured it).
+func (m *pfMem) assign(st *ssa.Store) {
+	cell := cellOf(st.Addr)
+	if cell == nil {
+		return
 	}
-	val := func(v ssa.Value) int8 {
-		if k, ok := c09BoolConst(v); ok {
-			if k {
-				return 1
-			}
-			return -1
+	if _, ok := deref(cell.Type()).Underlying().(*types.Basic); !ok {
+		return
+	}
+	val := st.Val
+	// x = x (named results) keeps the value
+	if u, ok := val.(*ssa.UnOp); ok && u.Op == token.MUL && cellOf(u.X) == cell {
+		return
+	}
+	for i := range m.cells {
+		if m.cells[i].cell == cell {
+			m.cells[i].val = val
+			return
 		}
-		return 0
 	}
-	if r := val(ret.Results[0]); r != 0 {
+	for i := range m.cells {
+		if m.cells[i].cell == nil {
+			m.cells[i] = pfCell{cell, val}
+			return
+		}
+	}
+	copy(m.cells[0:], m.cells[1:])
+	m.cells[pfCells-1] = pfCell{cell, val}
+}
+
+func (m *pfMem) cellVal(cell *ssa.Alloc) ssa.Value {
+	for i := range m.cells {
+		if m.cells[i].cell == cell {
+			return m.cells[i].val
+		}
+	}
+	return nil
+}
+
+// evalConst: the constant value v has on this path, if known: a literal, a
+// remembered local variable, a constant result of the most recent followed call.
+func (m *pfMem) evalConst(v ssa.Value, depth int, res func(ssa.Value) ssa.Value) (constant.Value, bool) {
+	if depth > 6 || v == nil {
+		return nil, false
+	}
+	switch x := v.(type) {
+	case *ssa.Parameter, *ssa.FreeVar:
+		// an argument that is a constant at this call (a mode flag of a merged helper)
+		if res != nil {
+			if r := res(v); r != v {
+				return m.evalConst(r, depth+1, res)
+			}
+		}
+	case *ssa.Const:
+		if x.Value != nil {
+			return x.Value, true
+		}
+	case *ssa.ChangeType:
+		return m.evalConst(x.X, depth+1, res)
+	case *ssa.Convert:
+		if _, ok := x.Type().Underlying().(*types.Basic); ok {
+			if c, ok := m.evalConst(x.X, depth+1, res); ok && c.Kind() == constant.Int {
+				return c, true
+			}
+		}
+	case *ssa.UnOp:
+		if x.Op == token.MUL {
+			if cell := cellOf(x.X); cell != nil {
+				if cv := m.cellVal(cell); cv != nil {
+					return m.evalConst(cv, depth+1, res)
+				}
+			}
+		}
+		if x.Op == token.NOT {
+			if c, ok := m.evalConst(x.X, depth+1, res); ok && c.Kind() == constant.Bool {
+				return constant.MakeBool(!constant.BoolVal(c)), true
+			}
+		}
+	case *ssa.Phi:
+		for i := range m.ivs {
+			if m.ivs[i].phi == x {
+				return constant.MakeInt64(m.ivs[i].val), true
+			}
+		}
+	case *ssa.Call:
+		if x == m.rc && m.rk[0].known && x.Call.Signature().Results().Len() == 1 {
+			return c09MakeConst(x.Type(), m.rk[0].val), true
+		}
+		if builtinName(x) == "len" && len(x.Call.Args) == 1 {
+			// len of a literal table
+			a := x.Call.Args[0]
+			if sl, ok := a.(*ssa.Slice); ok && sl.Low == nil && sl.High == nil {
+				a = sl.X
+			}
+			if arr, ok := deref(a.Type()).Underlying().(*types.Array); ok {
+				if _, isAlloc := a.(*ssa.Alloc); isAlloc {
+					return constant.MakeInt64(arr.Len()), true
+				}
+			}
+		}
+	case *ssa.Extract:
+		if call, ok := x.Tuple.(*ssa.Call); ok && call == m.rc && x.Index < 2 && m.rk[x.Index].known {
+			return c09MakeConst(x.Type(), m.rk[x.Index].val), true
+		}
+	case *ssa.BinOp:
+		switch x.Op {
+		case token.ADD, token.SUB:
+			a, ok1 := m.evalConst(x.X, depth+1, res)
+			b, ok2 := m.evalConst(x.Y, depth+1, res)
+			if ok1 && ok2 && a.Kind() == constant.Int && b.Kind() == constant.Int {
+				return constant.BinaryOp(a, x.Op, b), true
+			}
+		case token.EQL, token.NEQ, token.LSS, token.LEQ, token.GTR, token.GEQ:
+			a, ok1 := m.evalConst(x.X, depth+1, res)
+			b, ok2 := m.evalConst(x.Y, depth+1, res)
+			if ok1 && ok2 && a.Kind() == b.Kind() && (a.Kind() == constant.Int || a.Kind() == constant.Bool) {
+				if a.Kind() == constant.Bool {
+					eq := constant.BoolVal(a) == constant.BoolVal(b)
+					if x.Op == token.EQL {
+						return constant.MakeBool(eq), true
+					}
+					if x.Op == token.NEQ {
+						return constant.MakeBool(!eq), true
+					}
+					return nil, false
+				}
+				return constant.MakeBool(constant.Compare(a, x.Op, b)), true
+			}
+		}
+	}
+	return nil, false
+}
+
+// enterBlock: along the edge from->to, integer phis of `to` that are the index
+// of a counted loop (one constant edge) take the constant that flows in.
+func (m *pfMem) enterBlock(from, to *ssa.BasicBlock, res func(ssa.Value) ssa.Value) {
+	pi := -1
+	for i, p := range to.Preds {
+		if p == from {
+			pi = i
+		}
+	}
+	if pi < 0 {
+		return
+	}
+	type upd struct {
+		phi   *ssa.Phi
+		val   int64
+		known bool
+	}
+	var ups []upd
+	for _, in := range to.Instrs {
+		phi, ok := in.(*ssa.Phi)
+		if !ok {
+			break
+		}
+		b, isBasic := phi.Type().Underlying().(*types.Basic)
+		if !isBasic || b.Info()&types.IsInteger == 0 {
+			continue
+		}
+		hasConst := false
+		for _, e := range phi.Edges {
+			if _, isC := e.(*ssa.Const); isC {
+				hasConst = true
+			}
+		}
+		if !hasConst {
+			continue
+		}
+		u := upd{phi: phi}
+		if c, ok := m.evalConst(phi.Edges[pi], 0, res); ok && c.Kind() == constant.Int {
+			if n, exact := constant.Int64Val(c); exact && n > -1000 && n < 1000 {
+				u.val, u.known = n, true
+			}
+		}
+		ups = append(ups, u)
+	}
+	for _, u := range ups {
+		for i := range m.ivs {
+			if m.ivs[i].phi == u.phi {
+				copy(m.ivs[i:], m.ivs[i+1:])
+				m.ivs[pfIVs-1] = pfIV{}
+				break
+			}
+		}
+		if !u.known {
+			continue
+		}
+		placed := false
+		for i := range m.ivs {
+			if m.ivs[i].phi == nil {
+				m.ivs[i] = pfIV{u.phi, u.val}
+				placed = true
+				break
+			}
+		}
+		if !placed {
+			copy(m.ivs[0:], m.ivs[1:])
+			m.ivs[pfIVs-1] = pfIV{u.phi, u.val}
+		}
+	}
+}
+
+// tableElem: v loads element k (a constant on this path) of a literal
+// array/slice built in the same function; returns the element stored there.
+func (pf *PathFlow) tableElem(v ssa.Value) ssa.Value {
+	u, ok := v.(*ssa.UnOp)
+	if !ok || u.Op != token.MUL || pf.cur == nil {
+		return nil
+	}
+	ia, ok := u.X.(*ssa.IndexAddr)
+	if !ok {
+		return nil
+	}
+	c, ok := pf.cur.evalConst(ia.Index, 0, pf.Resolve)
+	if !ok || c.Kind() != constant.Int {
+		return nil
+	}
+	idx, _ := constant.Int64Val(c)
+	base := ia.X
+	if sl, ok := base.(*ssa.Slice); ok && sl.Low == nil {
+		base = sl.X
+	}
+	arr, ok := base.(*ssa.Alloc)
+	if !ok {
+		return nil
+	}
+	var found ssa.Value
+	n := 0
+	for _, r := range refs(arr) {
+		ea, ok := r.(*ssa.IndexAddr)
+		if !ok {
+			continue
+		}
+		k, isC := ea.Index.(*ssa.Const)
+		if !isC || k.Value == nil || k.Int64() != idx {
+			continue
+		}
+		for _, rr := range refs(ea) {
+			if st, ok := rr.(*ssa.Store); ok && st.Addr == ssa.Value(ea) {
+				found = st.Val
+				n++
+			}
+		}
+	}
+	if n == 1 {
+		return found
+	}
+	return nil
+}
+
+func c09MakeConst(t types.Type, v int64) constant.Value {
+	if c09IsBoolType(t) {
+		return constant.MakeBool(v != 0)
+	}
+	return constant.MakeInt64(v)
+}
+
+// evalBranch: the value of the If condition ending block b, if it is a constant on this path.
+func (m *pfMem) evalBranch(b *ssa.BasicBlock, res func(ssa.Value) ssa.Value) (known, val bool) {
+	if len(b.Instrs) == 0 || len(b.Succs) != 2 {
+		return false, false
+	}
+	ifi, ok := b.Instrs[len(b.Instrs)-1].(*ssa.If)
+	if !ok {
+		return false, false
+	}
+	c, ok := m.evalConst(ifi.Cond, 0, res)
+	if !ok || c.Kind() != constant.Bool {
+		return false, false
+	}
+	return true, constant.BoolVal(c)
+}
+
+// c09RetConst: the constant (bool or integer) a Return returns as result idx on
+// the path through its block: a literal, or a named/spilled result stored as a
+// constant in the same block.
+func c09RetConst(ret *ssa.Return, idx int) pfRet {
+	val := func(v ssa.Value) pfRet {
+		for i := 0; i < 3; i++ {
+			if ct, ok := v.(*ssa.ChangeType); ok {
+				v = ct.X
+				continue
+			}
+			if cv, ok := v.(*ssa.Convert); ok {
+				v = cv.X
+				continue
+			}
+			break
+		}
+		c, ok := v.(*ssa.Const)
+		if !ok || c.Value == nil {
+			return pfRet{}
+		}
+		switch c.Value.Kind() {
+		case constant.Bool:
+			if constant.BoolVal(c.Value) {
+				return pfRet{true, 1}
+			}
+			return pfRet{true, 0}
+		case constant.Int:
+			if n, ok := constant.Int64Val(c.Value); ok {
+				return pfRet{true, n}
+			}
+		}
+		return pfRet{}
+	}
+	if idx >= len(ret.Results) {
+		return pfRet{}
+	}
+	if r := val(ret.Results[idx]); r.known {
 		return r
 	}
-	if u, ok := ret.Results[0].(*ssa.UnOp); ok && u.Op == token.MUL {
+	if u, ok := ret.Results[idx].(*ssa.UnOp); ok && u.Op == token.MUL {
 		if slot, ok := u.X.(*ssa.Alloc); ok {
-			var last int8
+			var last pfRet
 			for _, in := range ret.Block().Instrs {
 				if st, ok := in.(*ssa.Store); ok && st.Addr == ssa.Value(slot) {
 					last = val(st.Val)
@@ -1161,48 +1806,16 @@ func c09RetConst(ret *ssa.Return) int8 {
 			return last
 		}
 	}
-	return 0
-}
-
-// c09EdgeAgrees: the edge from->to is compatible with call having returned rv.
-func c09EdgeAgrees(from, to *ssa.BasicBlock, call *ssa.Call, rv int8) bool {
-	if len(from.Instrs) == 0 || len(from.Succs) != 2 || from.Succs[0] == from.Succs[1] {
-		return true
-	}
-	ifi, ok := from.Instrs[len(from.Instrs)-1].(*ssa.If)
-	if !ok {
-		return true
-	}
-	cond, want := ifi.Cond, rv > 0
-	for i := 0; i < 4; i++ {
-		if u, ok := cond.(*ssa.UnOp); ok && u.Op == token.NOT {
-			cond, want = u.X, !want
-			continue
-		}
-		if bo, ok := cond.(*ssa.BinOp); ok && (bo.Op == token.EQL || bo.Op == token.NEQ) {
-			if k, ok := c09BoolConst(bo.Y); ok {
-				if k != (bo.Op == token.EQL) {
-					want = !want
-				}
-				cond = bo.X
-				continue
-			}
-		}
-		break
-	}
-	if cond != ssa.Value(call) {
-		return true
-	}
-	return (from.Succs[0] == to) == want
+	return pfRet{}
 }
 
 // WalkCalls visits every instruction of fn and of the functions it may run
 // synchronously (followed like PathFlow does, with known function values
 // resolved in context), without flow sensitivity. goToo also descends into the
 // bodies of go statements.
-func WalkCalls(fn *ssa.Function, args []ssa.Value, mc *ssa.MakeClosure, follow func(*ssa.Function) bool, goToo bool, visit func(pf *PathFlow, in ssa.Instruction)) {
-	pf := &PathFlow{Follow: follow}
-	pf.frames = []pfFrame{{fn: fn, args: args, mc: mc}}
+func WalkCalls(tmpl *PathFlow, fn *ssa.Function, goToo bool, visit func(pf *PathFlow, in ssa.Instruction)) {
+	pf := &PathFlow{Follow: tmpl.Follow, Funcs: tmpl.Funcs, RootsOf: tmpl.RootsOf}
+	pf.frames = []pfFrame{{fn: fn}}
 	pf.walk(fn, goToo, visit)
 }
 
@@ -1212,7 +1825,7 @@ func (pf *PathFlow) WalkFrom(ci ssa.CallInstruction, goToo bool, visit func(pf *
 	if cal == nil || len(cal.Blocks) == 0 || pf.Follow == nil || !pf.Follow(cal) {
 		return
 	}
-	sub := &PathFlow{Follow: pf.Follow}
+	sub := &PathFlow{Follow: pf.Follow, Funcs: pf.Funcs, RootsOf: pf.RootsOf}
 	sub.frames = append(append([]pfFrame{}, pf.frames...), pfFrame{fn: cal, args: args, mc: mc})
 	sub.walk(cal, goToo, visit)
 }
@@ -1233,6 +1846,35 @@ func (pf *PathFlow) walk(fn *ssa.Function, goToo bool, visit func(pf *PathFlow, 
 			}
 			cal, mc, args := pf.Callee(ci)
 			if cal == nil || len(cal.Blocks) == 0 || pf.Follow == nil || !pf.Follow(cal) {
+				// closures handed to a function outside the followed set (sync.Once.Do, ...)
+				if pf.Follow != nil {
+					for _, a := range ci.Common().Args {
+						if _, isFunc := a.Type().Underlying().(*types.Signature); !isFunc {
+							continue
+						}
+						var f *ssa.Function
+						var amc *ssa.MakeClosure
+						switch x := pf.Resolve(a).(type) {
+						case *ssa.Function:
+							f = origin(x)
+						case *ssa.MakeClosure:
+							h, _ := x.Fn.(*ssa.Function)
+							f, amc = origin(h), x
+						}
+						var fargs []ssa.Value
+						if f != nil && amc != nil {
+							if bt, bargs := c09BoundTarget(f, amc, nil); bt != f {
+								f, amc, fargs = bt, nil, bargs
+							}
+						}
+						if f == nil || len(f.Blocks) == 0 || !pf.Follow(f) || pf.onStack(f) || len(pf.frames) > 12 {
+							continue
+						}
+						pf.frames = append(pf.frames, pfFrame{fn: f, args: fargs, mc: amc})
+						pf.walk(f, goToo, visit)
+						pf.frames = pf.frames[:len(pf.frames)-1]
+					}
+				}
 				continue
 			}
 			rec := false
